@@ -1162,6 +1162,18 @@ impl RoomAuthorisations {
         }
         let room_id = room_id.unwrap();
 
+        //the rows that define a room only change through a room definition (add_room_node), never as ordinary rows
+        match node_to_insert.entity_name.as_deref() {
+            Some(
+                system_entities::ROOM_ENT
+                | system_entities::AUTHORISATION_ENT
+                | system_entities::ENTITY_RIGHT_ENT
+                | system_entities::USER_AUTH_ENT,
+            ) => return false,
+            Some(_) => {}
+            None => return false,
+        }
+
         if let Some(old_room_id) = &node_to_insert.old_room_id {
             if !old_room_id.eq(&room_id) {
                 let room = self.rooms.get(old_room_id);
